@@ -93,7 +93,7 @@ func c08(r *core.Run) {
 	r.Rule("O5", "Event fields: Name equals the subject suffix; OldValues/removed Value/deleted Data flow from the apply handler's result; NewValues/added Value/created Data/Payload/Idx from the method's own arguments; Resource is the receiver", 15)
 	r.Rule("O6", "synchronous: no go statement in an event method before its publish, none in any function from which Conn.Publish is reachable, so one callback's messages reach the connection in program order", 5)
 
-	r.Rule("O7", "listeners reach the resource: every resource value that is given a routed handler (its handler field stored from a Match's Handler) is given, in the same construction, the listeners of that same Match; a resource built without them applies and publishes its events but notifies no listener", 2)
+	r.Rule("O7", "listeners reach the resource: every resource value that is given a routed handler (its handler field stored from a Match's Handler) is given, in the same construction, the listeners of that same Match; a resource built without them applies and publishes its events but notifies no listener", 1)
 
 	root := p.FuncsOfPkg("")
 	c08ListenersWired(r, "O7", root)
@@ -179,6 +179,14 @@ func c08(r *core.Run) {
 		}
 	}
 
+	lstF, okLst := fieldByType(p, "", "resource", func(t types.Type) bool {
+		sl, ok := t.Underlying().(*types.Slice)
+		if !ok {
+			return false
+		}
+		sig, ok := sl.Elem().Underlying().(*types.Signature)
+		return ok && sig.Params().Len() == 1 && core.TypeName(sig.Params().At(0).Type()) == "Event"
+	})
 	for _, m := range methods {
 		fn := m.fn
 		fname := core.FuncName(fn)
@@ -202,6 +210,7 @@ func c08(r *core.Run) {
 			bNoH     = 2
 			bPub     = 4
 			bPub2    = 8
+			bLst     = 16 // the resource's listener list was read (the notification step was reached)
 		)
 		isA := map[ssa.Instruction]bool{}
 		for _, c := range m.A {
@@ -225,6 +234,11 @@ func c08(r *core.Run) {
 					return core.StateSet(0).Add(s | bPub2)
 				}
 				return core.StateSet(0).Add(s | bPub)
+			}
+			if u, ok := in.(*ssa.UnOp); ok && u.Op == token.MUL && okLst {
+				if f, ok := core.FieldOf(u.X); ok && f == lstF {
+					return core.StateSet(0).Add(s | bLst)
+				}
 			}
 			return core.StateSet(0).Add(s)
 		}
@@ -273,6 +287,26 @@ func c08(r *core.Run) {
 				}
 			}
 			r.Check(good && !core.IsGo(c), "O2", fname, "listener-after-publish", p.InstrPos(c), "listeners are only called after the event was published, synchronously", "a listener can be called before the publish (or on its own goroutine)")
+		}
+		// every publish is followed by the notification step: in a method that notifies listeners at
+		// all, no path returns after a publish without having read the listener list
+		if len(m.L) > 0 && okLst {
+			for _, ret := range core.Returns(fn) {
+				if fn.Recover != nil && ret.Block() == fn.Recover {
+					continue
+				}
+				skipped := false
+				for _, s := range res.Before[ret].List() {
+					if s&bPub != 0 && s&bLst == 0 {
+						skipped = true
+					}
+				}
+				var conds []string
+				for _, ed := range dominatingEdges(ret) {
+					conds = append(conds, describeCond(ed))
+				}
+				r.Check(!skipped, "O2", fname, "published-event-reaches-listeners:"+returnDesc(ret, conds), p.InstrPos(ret), "every path that published went on to the listener notification", "a path publishes the event and returns without reaching the listener notification: the event is on the wire but no listener of the resource is told (for instance a payload-less custom event sent through a shortcut)")
+			}
 		}
 		// ---- O3 ----
 		isL := map[ssa.Instruction]bool{}
